@@ -15,9 +15,11 @@ THEOREMS = [
     "C28_add_ignored_refuted", "C28_add_filemode_refuted", "C28_add_replaced_dir_refuted",
     "C28_add_scope_eq", "C28_add_file_eq", "C28_add_deleted_eq", "C28_add_dir_eq", "C28_add_all_eq",
     "C28_rm_dir_eq", "C28_clean_nod_eq_partial",
+    "C28_add_glob_eq", "C28_rm_glob_eq", "C28_rm_glob_missing_dir_refuted",
+    "C28_tree_order", "C28_base_name_compare",
     "C28_commit_head", "C28_commit_head_update", "C28_commit_merge_head_refuted", "C28_commit_amend_merge_refuted",
 ]
-MODEL_FILES = ["Status.v", "IndexOps.v", "CommitHead.v"]
+MODEL_FILES = ["Status.v", "IndexOps.v", "CommitHead.v", "WriteTree.v", "TreeObj.v", "IndexGlob.v"]
 MODELLED = ("worktree_status.go doAdd / doAddDirectory / doAddFile (file, directory, All), doUpdateFileToIndex (mode, size, "
             "mtime from the file), Remove / doRemoveDirectory / doRemoveFile, Move; worktree.go Clean / doClean; "
             "worktree_commit.go buildTreeHelper.BuildTree (commitIndexEntry, doBuildTree with the never-written h.entries, "
@@ -80,6 +82,8 @@ def call(prefix, c):
         return "%saddall %s %s" % (prefix, tbl, state)
     if op == "rm":
         return "%srm %s %s %s" % (prefix, tbl, state, hx(c["path"]))
+    if op in ("addglob", "rmglob"):
+        return "%s%s %s %s %s" % (prefix, op, tbl, state, hx(c["path"]))
     if op == "mv":
         return "%smv %s %s %s %s" % (prefix, tbl, state, hx(c["path"]), hx(c["to"]))
     if op == "clean":
@@ -93,7 +97,7 @@ def call(prefix, c):
         if prefix == "c28_":
             args += " " + coq_bool(not st["index"])
         return "%scommithead %s" % (prefix, args)
-    return "%scommit %s %s" % (prefix, tbl, state)
+    return "%scommit_id %s %s" % (prefix, tbl, state)
 
 
 def under(d, p):
@@ -117,6 +121,53 @@ def deviation(c):
         if any(m == "l" and q.rsplit("/", 1)[-1] in (".gitignore", ".gitattributes", ".mailmap", ".gitmodules") for q, (m, _, _) in idx.items()):
             return "commit-dotfile-symlink"
         return "commit-ita" if any(f == "ita" for (_, _, f) in idx.values()) else None
+    if op == "rmglob":
+        import re
+        rx = re.compile("^" + "".join(".*" if ch == "*" else "." if ch == "?" else re.escape(ch) for ch in p) + "$", re.S)
+        victims = [q for q in sorted(idx, key=lambda x: x.encode()) if rx.match(q)]
+        live = set(wt)
+        for q in victims:
+            if any(under(x, q) for x in live):
+                return "rm-below-file"
+            if q not in live and any(under(q, x) for x in live):
+                return "rmglob-entry-is-directory"
+            d = q.rsplit("/", 1)[0] if "/" in q else None
+            if d is not None and not any(under(d, x) for x in live):
+                return "rmglob-missing-dir"
+            live.discard(q)
+        for q in victims:
+            comps = q.split("/")
+            for k in range(1, len(comps) - 1):
+                d = "/".join(comps[:k])
+                if not any(under(d, x) for x in live) and not any(e == d or under(d, e) for e in st["dirs"]):
+                    return "rmglob-empty-grandparent"
+        return None
+    if op == "addglob":
+        import fnmatch
+        def kids(d):
+            pre = d + "/" if d else ""
+            return sorted({x[len(pre):].split("/")[0] for x in wt if x.startswith(pre)})
+        cands = [""]
+        for cp in p.split("/"):
+            cands = [(d + "/" if d else "") + n for d in cands if d == "" or isdir(d) for n in kids(d) if fnmatch.fnmatchcase(n, cp)]
+        inscope = lambda q: any(q == m or under(m, q) for m in cands)
+        if not st["filemode"]:
+            for q, (m2, _, _) in wt.items():
+                if inscope(q) and m2 != "l":
+                    old = idx.get(q)
+                    want = old[0] if (old is not None and old[0] != "l") else "f"
+                    if m2 != want:
+                        return "add-filemode-false"
+        for m in cands:
+            if any((q == m or under(m, q)) and isdir(q) for q in idx):
+                return "add-file-replaced-by-dir"
+            if m in wt and any(under(q, m) for q in idx):
+                return "add-below-tracked-file"
+            if m in wt and m not in idx and pg.ignored(st, m):
+                return "add-ignored-explicit"
+            if any((q == m or under(m, q)) and q not in wt and any(under(x, q) for x in wt) for q in idx):
+                return "add-dir-replaced-by-file"
+        return None
     if op in ("add", "addall", "mv") and not st["filemode"]:
         for q, (m, cont, t) in wt.items():
             old = idx.get(q if op != "mv" else p)
@@ -195,14 +246,15 @@ def deviation(c):
 class Main(Suite):
     name = "main"
     go_cmd = "c28"
-    coq_imports = "From GoGit Require Import Model.Status Model.IndexOps Spec.GitIndexOps Model.CommitHead Spec.GitCommitHead."
+    coq_imports = "From GoGit Require Import Model.Status Model.IndexOps Spec.GitIndexOps Model.CommitHead Spec.GitCommitHead Model.WriteTree Spec.GitWriteTree Model.IndexGlob Spec.GitIndexGlob."
     quick_n = 110
     thorough_n = 400
     coq_chunk = 60
 
     def gen(self, rng, n, tier):
         cases = []
-        ops = ["add", "add", "adddir", "addall", "rm", "rmdir", "mv", "clean", "cleand", "commit", "commit", "commithead", "commithead"]
+        ops = ["add", "add", "adddir", "addall", "rm", "rmdir", "mv", "clean", "cleand", "commit", "commit", "commithead", "commithead",
+               "addglob", "rmglob"]
         nhead = 0
         for k in range(n):
             kind = ops[k % len(ops)]
@@ -242,6 +294,12 @@ class Main(Suite):
                 c["to"] = rng.choice(["new", "d/new", "nd/new"] + allp[:2])
                 if any(c["to"].startswith(q + "/") for q in wt):      # a file where a directory is needed: not a rename question
                     c["to"] = "new"
+            elif kind in ("addglob", "rmglob"):
+                # patterns of literals, '*' and '?': whole names, prefixes, one level down, two levels down
+                c["op"] = kind
+                c["path"] = rng.choice(["*", "d*", "?", "a*", "*.o", "d/*", "*/*", "d/?", "a/?", "d/g/*", "*/g/?", "nosuch*", "b", "d",
+                                        "build/*", "*x", "??", "d.?"])
+                c["dirs"] = []          # directory listings of the model: the files only
             elif kind in ("clean", "cleand"):
                 c["op"], c["dir"] = "clean", kind == "cleand"
             else:
@@ -373,7 +431,12 @@ class Main(Suite):
                         {k: v for k, v in c.items() if k != "id"}, o, ex.get("git_obs")))
                 continue
             if c["op"] == "commit":
-                continue   # S's tree listing is checked through the tree id by the oracle; here only index ops
+                # S = the transcription of cache-tree.c (Spec/GitWriteTree.v) against `git write-tree`
+                if not ex.get("giterr") and o != "x" + (ex.get("git_tree_id") or ""):
+                    bad += 1
+                    ctx.notes.append("spec_mismatch GitWriteTree vs git on %s: S %s / git %s" % (
+                        {k: v for k, v in c.items() if k != "id"}, o, ex.get("git_tree_id")))
+                continue
             want_err = bool(ex.get("giterr"))
             got_err = o.startswith("( err")
             # compare listings textually: rebuild S's listing in the harness' plain form
@@ -400,7 +463,7 @@ class Main(Suite):
                 bad += 1
                 ctx.notes.append("spec_mismatch GitIndexOps vs git on %s: S %s / git err=%s idx=%s wt=%s" % (
                     {k: v for k, v in c.items() if k != "id"}, o[:400], want_err, gi, gw))
-        return {"spec_vs_git_cases": sum(1 for c in cases if c["op"] != "commit"), "spec_mismatches": bad,
+        return {"spec_vs_git_cases": len(cases), "spec_mismatches": bad,
                 "exit_status_only_differences": getattr(self, "status_only", 0)}
 
 
